@@ -6,7 +6,7 @@
 // terminating) interleaved. Generator preconditions (DESIGN C19): report >= getTime(),
 // scheduled >= max(getTime(), getAdvancedTime()), final time set before initialize, every request
 // bounded (finite min(report,scheduled,final) or step limit / return-every-step).
-// Oracle: a model of the documented contract checked after EVERY return (see judge()).
+// Oracle: a model of the documented contract checked after EVERY return (clause list in notes/C19.md).
 #include "pbt.h"
 #include "anasys.h"
 #include "SimTKmath.h"
@@ -326,6 +326,7 @@ void property(const pbt::Tape& t, pbt::Ctx& ctx) {
         tPrev = tt; expectSOCI = false; lastSt = st; lastInterpolated = isInterp;
     }
     if (!ok) return;
+    if (stoppedKnown) ctx.label("history-truncated-at-known-site");
     if (over && nEoS) {
         bool threw = false; try { integ->stepTo(o.tFinal + 1); } catch (const std::exception&) { threw = true; }
         if (!ctx.check(threw, std::string(integName(o.integ)) + ": stepTo after EndOfSimulation did not throw")) return;
